@@ -108,6 +108,13 @@ def build(run):
 
 
 def run(run, replay=None):
+    from units.C11 import vunit, cex as _cex
+    tier = run.tier if hasattr(run, 'tier') else 'quick'
+    run.fallbacks.append(("operator expressions parsed by the real parser", lambda: _cex.find(run, tier=tier)))
+    vu = vunit.build(run)
+    vres = vu.run(rlimit=80)
+    run.add_verus(vu, vres, cex_finder=lambda f: _cex.find(run, f, tier=tier))
+    run.trusted.append("C11/Verus: operands are atoms of the tree (contract of try_reduce_bin_lhs is assumed); executions through match arms outside the fragment (lambda, type ascription, member access, subscript, tuple, default parameter, pipeline, definition, call without parentheses) are not covered by the proof; the lexer's prefix/infix classification (Lexer::op_fix) is exercised only by the replay search")
     unit, hs = build(run)
     res = unit.run([h[0] for h in hs], jobs=4, timeout_s=600)
     run.note_functions(unit.snippets)
